@@ -288,6 +288,41 @@ func R7PathContain(c *Ctx) {
 				return true, "path is read from field " + f + "; all " + itoa(len(sites)) + " stores to it are vouched"
 			}
 		}
+		// the path is (built from) a parameter of an unexported helper: every caller must hand in a vouched path
+		if len(tests) == 0 && depth < 2 {
+			var prm *ssa.Parameter
+			for _, l := range pLeaves {
+				if pp := ParamOf(l); pp != nil && pp.Parent() == fn {
+					prm = pp
+				}
+			}
+			if prm != nil {
+				idx := -1
+				for i, q := range fn.Params {
+					if q == prm {
+						idx = i
+					}
+				}
+				why := ""
+				all := c.EveryCallSite(fn, func(site ssa.CallInstruction) bool {
+					args := site.Common().Args
+					if idx < 0 || idx >= len(args) {
+						return false
+					}
+					ok, w := decide(site.Parent(), site, args[idx], depth+1)
+					if !ok {
+						why = w
+					}
+					return ok
+				})
+				if all {
+					return true, "the path is a parameter of this helper and every call site passes a vouched path"
+				}
+				if why != "" {
+					return false, "the path is a parameter of this helper; a call site does not vouch for it: " + why
+				}
+			}
+		}
 		if len(tests) == 0 {
 			return false, "no clean-then-prefix containment test in this function"
 		}
